@@ -176,6 +176,7 @@ class Interp:
         self.reg = {}  # id -> Node (set when the definition is complete)
         self.faults = []  # (kind, relation)
         self.pending = []  # unresolved references (id, path)
+        self.nested_dups = set()  # ids defined again inside their own definition
         self.order_dependent = False  # verdict would depend on the order of keys inside one object
         self.malformed = None  # outside the zoo / the language subset handled here
         self.nodes = []
@@ -214,8 +215,9 @@ class Interp:
         return not self.faults
 
     def fault_tags(self):
-        kinds = sorted({k for k, _ in self.faults})
-        rels = sorted({r for _, r in self.faults})
+        root = [f for f in self.faults if f != ("dangling", "enclosing_shadowed")]
+        kinds = sorted({k for k, _ in root})
+        rels = sorted({r for _, r in root})
         return {"fault": "+".join(kinds) or "none", "relation": "+".join(rels) or "none"}
 
     # ---- walking
@@ -235,7 +237,9 @@ class Interp:
                 self._lca_guard(self.reg[v]["path"], path)
                 return self.reg[v]
             if v in self.defined and path[: len(self.defined[v])] == self.defined[v]:
-                self.faults.append(("dangling", "enclosing"))
+                # a reference to the object being defined; when a second definition of the same id has
+                # already been seen inside it, this is a consequence of that duplicate, not a fault of its own
+                self.faults.append(("dangling", "enclosing_shadowed" if v in self.nested_dups else "enclosing"))
             else:
                 self.pending.append((v, path))
             return None
@@ -259,7 +263,10 @@ class Interp:
             if not isinstance(id_, str):
                 raise _Malformed("id is not a string")
             if id_ in self.defined:
-                self.faults.append(("duplicate", relation(self.defined[id_], path)))
+                rel = relation(self.defined[id_], path)
+                if rel == "ancestor":
+                    self.nested_dups.add(id_)
+                self.faults.append(("duplicate", rel))
             else:
                 self.defined[id_] = path
                 first = True
